@@ -12,7 +12,14 @@ trap 'git -C /repo worktree remove --force "$wt" >/dev/null 2>&1' EXIT
 cmd=$(python3 -c "import json;print(json.load(open('$d/meta.json'))['demo_cmd'])")
 sub=$(echo "$cmd" | grep -oE 'SEED_OUT/[0-9]+' | head -1); [ -z "$sub" ] && sub="SEED_OUT/1"
 mkdir -p "$wt/$sub"; cp "$d/demo_test.go" "$wt/$sub/demo_test.go" 2>/dev/null; cp "$d"/demo* "$wt/$sub/" 2>/dev/null
+if ! echo "$cmd" | grep -q 'cp '; then
+  # the command does not place the demo itself: put it into the package directory it tests
+  pkgdir=$(echo "$cmd" | grep -oE '\./[A-Za-z0-9_./-]+' | tail -1 | sed 's#/\.\.\.$##')
+  case "$cmd" in *"cd examples/morpheusvm"*) pkgdir="examples/morpheusvm/$pkgdir";; esac
+  cp "$d/demo_test.go" "$wt/$pkgdir/zz_seed_demo_test.go"
+fi
 ( cd "$wt" && timeout 900 bash -c "$cmd" ) >"$d/confirm.without.log" 2>&1; rc_without=$?
+grep -q 'no tests to run' "$d/confirm.without.log" && rc_without=99
 ( cd "$wt" && git apply "$d/patch.diff" ) || { echo "{\"applies\": false}" > "$d/confirm.json"; exit 1; }
 ( cd "$wt" && go build ./... ) >"$d/confirm.build.log" 2>&1; rc_build=$?
 ( cd "$wt" && timeout 900 bash -c "$cmd" ) >"$d/confirm.with.log" 2>&1; rc_with=$?
